@@ -8,6 +8,8 @@ CHECKS = {
  "C02": ("proof for field decoding and sign extension", "cat layout/ordering, show-titles, .inf line outside the verified set so far (DESIGN.md C02)"),
  "C03": ("proof: table lemma, line lemmas against the doc-derived monitor, framing lemma over an unbounded ghost file", "stdio model, token oracle from the pinned golden map, files <= 16 MiB"),
  "C04": ("proof: FileView position formula per (take, leave) geometry, byte offset of container sectors", "view constructors and geometry selection outside the verified set so far"),
+ "C05": ("proof of the leaf lemmas only (bit addressing, bit reversal, header field decoding); the end-to-end clause is undecided and reported as such", "track state machines and adapters outside the verified set (DESIGN.md C05)"),
+ "C06": ("proof of the CRC-16/CCITT step and fold, bit addressing, MFM clock rule (thorough tier); the decoder clause is undecided", "decode_*_track state machines outside the verified set (DESIGN.md C06)"),
  "C07": ("proof of function-level safety for the extracted parsers on arbitrary bytes (reduced scope, see DESIGN.md C07)", "whole-program clause (exit status, signals) is outside any contract"),
  "C12": ("proof of path confinement for extract-files", "read-only-ness of images is a fact about library calls, outside contracts"),
  "C13": ("proof for the HDFS/Watford probes and their read-set", "Opus probe, geometry selection outside the verified set"),
@@ -24,7 +26,7 @@ NA = {
  "C18": "relational two-run property about iostream formatting inside functions that cannot be extracted; the extractor drops `if (verbose)` blocks by rule, so the verified text cannot speak about them (DESIGN.md C18)",
 }
 PENDING = {k: "contract not implemented yet (see DESIGN.md section 3 for the plan)" for k in
-           ["C05", "C06", "C10"]}
+           ["C10"]}
 def main():
     checks = []
     for pid in sorted(CHECKS):
